@@ -1077,6 +1077,11 @@ fn ep_c18(s: &mut S, r: &mut Rng, _maxc: usize, _maxr: usize) {
                     s.feed_str(slot, "\x1b[Z", true);
                 }
             }
+            8 if r.chance(1, 2) => {
+                // tab stops are shared by both screens; a resize while the other screen shows must not touch them twice
+                let t = if r.chance(1, 2) { gen::enter_alt(r) } else { gen::leave_alt(r) };
+                s.feed_str(slot, &t, true);
+            }
             _ => {
                 let t = gen::tab_move(r);
                 s.feed_str(slot, &t, true);
